@@ -1,6 +1,8 @@
 """Property id -> check function."""
 import c20
+import c19
 
 CHECKS = {
     "C20": c20.check,
+    "C19": c19.check,
 }
